@@ -252,33 +252,46 @@ Proof.
   destruct (rayIntersect v (hd dp o) (last o dp)) as [c0 on0]. destruct on0; eexists; reflexivity.
 Qed.
 
-Lemma matchVertices_single (o : ring) acc : o <> [] -> forall verts,
-  matchVertices [o :: acc] verts [] = Ok (if existsb (containsb o) verts then (Some 0, [(0, 1)]) else (None, [])).
+(** the repair of F16 is inert here: no inner ring shares a point with the shell, so no polygon is cancelled
+    ([cancelledBy] is empty and nothing is skipped) *)
+Lemma cancelledBy_single (o : ring) ins : o <> [] -> Forall (fun h : ring => ~ In (hd dp o) h) ins ->
+  cancelledBy [[o]] ins = Ok [].
+Proof.
+  intros Ho F. unfold cancelledBy. cbn [cancelledByFrom].
+  assert (G : forall j, firstEqualInner [o] ins j = Ok None).
+  { induction F as [| h ins' Hh F IH]; intro j; cbn [firstEqualInner]; [reflexivity |].
+    rewrite idx_0_cons. cbn [bind]. rewrite (ringsAreEqual_disjoint o h true false Ho Hh). cbn [bind]. apply IH. }
+  rewrite G. reflexivity.
+Qed.
+
+Lemma matchVertices_single innerI (o : ring) acc : o <> [] -> forall verts,
+  matchVertices [] innerI [o :: acc] verts [] = Ok (if existsb (containsb o) verts then (Some 0, [(0, 1)]) else (None, [])).
 Proof.
   intro Ho. induction verts as [| v verts IH]; [reflexivity |].
-  cbn [matchVertices existsb]. rewrite idx_0_cons. cbn [bind]. unfold containsb at 1.
+  cbn [matchVertices existsb skipCancelled cb_find]. rewrite idx_0_cons. cbn [bind]. unfold containsb at 1.
   destruct (ringContains_ok o v Ho) as [[b on] E]. rewrite E. cbn [bind fst]. destruct b; cbn [orb].
   - reflexivity.
   - cbn. exact IH.
 Qed.
 
-Lemma matchInnersLoop_single (o : ring) : o <> [] -> forall inners acc sorted turned,
-  matchInnersLoop [o :: acc] inners sorted turned =
+Lemma matchInnersLoop_single (o : ring) : o <> [] -> forall inners innerI acc sorted turned,
+  matchInnersLoop [] innerI [o :: acc] inners sorted turned =
     Ok ([o :: acc ++ filter (attached o) inners],
         turned ++ map (@rev pt) (filter (fun h => negb (attached o h)) inners)).
 Proof.
-  intro Ho. induction inners as [| h inners IH]; intros acc sorted turned; cbn [matchInnersLoop filter map].
+  intro Ho. induction inners as [| h inners IH]; intros innerI acc sorted turned; cbn [matchInnersLoop filter map].
   - rewrite !app_nil_r. reflexivity.
-  - rewrite (matchVertices_single o acc Ho h). cbn [bind]. fold (attached o h). destruct (attached o h); cbn [negb].
+  - rewrite (matchVertices_single innerI o acc Ho h). cbn [bind]. fold (attached o h). destruct (attached o h); cbn [negb].
     + cbn [append_inner Z.eqb app]. rewrite IH. rewrite <- app_assoc. reflexivity.
     + cbn [length Nat.eqb]. rewrite IH. cbn [map]. rewrite <- app_assoc. reflexivity.
 Qed.
 
-Theorem match_single (o : ring) ins : o <> [] ->
+Theorem match_single (o : ring) ins : o <> [] -> Forall (fun h : ring => ~ In (hd dp o) h) ins ->
   matchInnersToPolygons [[o]] ins =
     Ok ([o :: filter (attached o) ins] ++ map (fun t => [rev t]) (filter (fun h => negb (attached o h)) ins)).
 Proof.
-  intro Ho. unfold matchInnersToPolygons. destruct ins as [| h ins]; [reflexivity |].
+  intros Ho F. unfold matchInnersToPolygons. destruct ins as [| h ins]; [reflexivity |].
+  rewrite (cancelledBy_single o (h :: ins) Ho F). cbn [bind].
   rewrite (matchInnersLoop_single o Ho). cbn [bind fst snd app]. rewrite map_map. reflexivity.
 Qed.
 
@@ -326,7 +339,12 @@ Proof.
   { cbn [app]. clear -Fl Hl. induction Fl as [| c x cs' xs' Hx F IH]; [constructor |]. inversion Hl; subst.
     constructor; [| apply IH; assumption]. pose proof (ring_like_length _ _ Hx). destruct x; [cbn in *; lia | discriminate]. }
   unfold levelPolys. cbn [aAlive aOuters aInners]. rewrite (dedupe_disjoint_id [x0] xs Nex NDx). cbn [bind fst snd map].
-  rewrite match_single by (inversion Nex; assumption). cbn [bind]. fold (polysOf x0 xs).
+  assert (Hx0ne : x0 <> []) by (inversion Nex; assumption).
+  assert (Fdis : Forall (fun h : ring => ~ In (hd dp x0) h) xs).
+  { rewrite Forall_forall. intros h Hh Hin. cbn [app concat] in NDx.
+    apply (NoDup_app_disjoint _ _ (hd dp x0) NDx); [destruct x0; [congruence | left; reflexivity] |].
+    apply in_concat. exists h. split; assumption. }
+  rewrite (match_single x0 xs Hx0ne Fdis). cbn [bind]. fold (polysOf x0 xs).
   unfold levelResult. cbn [aPL map]. cbn zeta. rewrite app_nil_r.
   unfold flipb, polysOf. destruct (reverseWindingOrder cfg); reflexivity.
 Qed.
